@@ -196,29 +196,126 @@ Definition found_keys (tr : trace) (ins : list (N * input)) : list (N * addr * s
   dedup (fun x y => (fst (fst x) =? fst (fst y)) && (snd (fst x) =? snd (fst y)) && service_key_eqb (snd x) (snd y))
         (from_trace ++ flat_map (fun l => map (fun o => (l, fst o, snd o)) offers) lids).
 
-(* result codes: 0 ok; 1 alternation broken; 2 history differs from the specification; 9 = F13 pattern (duplicate registrations) *)
+(* ---- registrations at any time (watch / unwatch / watch-all / unwatch-all calls in the history) ----
+   replay of the registration calls of listener lid, as far as they concern service s offered by a:
+   d_regs  the listener's current registrations (None = watch-all, Some f = filter f), a set like the code's
+   d_max   the largest number of simultaneous registrations matching s            (> 1: F13)
+   d_dup   a registration was repeated while it was in force (the replay of "offered" is repeated: F13 family)
+   d_last  the listener was registered for s when the most recent offer of (a, s) arrived *)
+Record dyn := mkDyn { d_regs : list (option service); d_max : N; d_dup : bool; d_last : bool }.
+
+Definition reg_eqb (x y : option service) : bool :=
+  match x, y with
+  | None, None => true
+  | Some f, Some g => service_eqb f g
+  | _, _ => false
+  end.
+Definition reg_matching (s : service) (regs : list (option service)) : N :=
+  count (fun r => match r with None => true | Some f => matches_service f s end) regs.
+
+Definition dyn_add (s : service) (r : option service) (d : dyn) : dyn :=
+  if existsb (reg_eqb r) (d_regs d) then mkDyn (d_regs d) (d_max d) true (d_last d)
+  else let regs := r :: d_regs d in mkDyn regs (N.max (d_max d) (reg_matching s regs)) (d_dup d) (d_last d).
+Definition dyn_remove (r : option service) (d : dyn) : dyn :=
+  mkDyn (filter (fun x => negb (reg_eqb r x)) (d_regs d)) (d_max d) (d_dup d) (d_last d).
+
+Definition dyn_step (lid : N) (a : addr) (s : service) (x : input) (d : dyn) : dyn :=
+  match x with
+  | IApi (ApiWatch f (LRec l)) => if l =? lid then dyn_add s (Some f) d else d
+  | IApi (ApiWatchAll (LRec l)) => if l =? lid then dyn_add s None d else d
+  | IApi (ApiUnwatch f (LRec l)) => if l =? lid then dyn_remove (Some f) d else d
+  | IApi (ApiUnwatchAll (LRec l)) => if l =? lid then dyn_remove None d else d
+  | IOffer a' s' _ =>
+      if (a' =? a) && service_key_eqb s' s then mkDyn (d_regs d) (d_max d) (d_dup d) (0 <? reg_matching s (d_regs d)) else d
+  | _ => d
+  end.
+Definition dyn_of (ins : list (N * input)) (lid : N) (a : addr) (s : service) : dyn :=
+  fold_left (fun d p => dyn_step lid a s (snd p) d) ins (mkDyn [] 0 false false).
+
+(* the state of key (a, s) once the loop is idle after t_end, from ALL offers / withdrawals the stack received -
+   whether or not anybody was watching at that moment: the property speaks of "that source's most recent offer" *)
+Definition final_hist (touches : list (N * touch)) (t_end : N) : hist :=
+  expire_before (t_end + 1) (fold_left (fun acc p => apply_touch (fst p) (snd p) acc) touches (mkHist None [] false)).
+
+(* F18 (open finding): the same touches as the code sees them - an offer that arrives while nobody watches its service
+   is ignored even when an older offer of that service is still stored.  watched_services is a defaultdict: a filter
+   stays a key once watch_service or stop_watch_service has named it; watch-all counts while its set is non-empty *)
+Fixpoint found_touches_gated (ins : list (N * input)) (filters : list service) (all : list listener)
+  (a : addr) (k : service) : list (N * touch) :=
+  match ins with
+  | [] => []
+  | (t, x) :: r =>
+      let watching := match all with _ :: _ => true | [] => existsb (fun f => matches_service f k) filters end in
+      let here :=
+        match x with
+        | IOffer a' s ttl => if (a' =? a) && service_key_eqb s k && watching then [(t, TUp ttl false true)] else []
+        | IStopOffer a' s => if (a' =? a) && service_key_eqb s k then [(t, TDown)] else []
+        | IReboot a' => if a' =? a then [(t, TDown)] else []
+        | IApi ApiConnLost => [(t, TDown)]
+        | _ => []
+        end in
+      let filters' := match x with
+                      | IApi (ApiWatch f _) | IApi (ApiUnwatch f _) => f :: filters
+                      | IApi (ApiFindSub g) | IApi (ApiStopFindSub g) => as_service g :: filters
+                      | _ => filters
+                      end in
+      let all' := match x with
+                  | IApi (ApiWatchAll l) => l :: all
+                  | IApi (ApiUnwatchAll l) => filter (fun l' => negb (listener_eqb l l')) all
+                  | _ => all
+                  end in
+      here ++ found_touches_gated r filters' all' a k
+  end.
+
+(* clauses 2 and 3 of C05 at the end of the run, for any registration history of one listener:
+   4 = the latest notification is "offered" although the most recent offer has expired or was withdrawn;
+   18 = the same, and the offer that expired arrived while nobody was watching the service: finding F18;
+   5 = the latest notification is not "offered" although the most recent offer is live, arrived while the listener
+       was registered for it, and the listener is still registered *)
+Definition check_C05_last (actual : list (N * bool)) (ins : list (N * input)) (t_end : N) (d : dyn)
+  (a : addr) (s : service) : N :=
+  let h := final_hist (found_touches ins a s) t_end in
+  if h_ambiguous h then 0 else
+  let last_up := match rev actual with p :: _ => snd p | [] => false end in
+  match h_state h with
+  | None =>
+      if negb last_up then 0 else
+      let g := final_hist (found_touches_gated ins [] [] a s) t_end in
+      if h_ambiguous g then 0 else match h_state g with Some _ => 18 | None => 4 end
+  | Some _ => if d_last d && (0 <? reg_matching s (d_regs d)) && negb last_up then 5 else 0
+  end.
+
+(* result codes: 0 ok; 1 alternation broken; 2 history differs from the specification; 4, 5 see check_C05_last;
+   9 = F13 pattern (one listener under several registrations matching the service, or one registration repeated) *)
 Definition check_C05_key (tr : trace) (ins : list (N * input)) (t_end : N) (static : bool)
   (key : N * addr * service) : N :=
   let '(lid, a, s) := key in
   let actual := found_actual tr lid a s in
-  if 1 <? matching_regs ins lid s then (if alternates true (map snd actual) then 0 else 9) else
+  let d := dyn_of ins lid a s in
+  if (1 <? d_max d) || d_dup d then (if alternates true (map snd actual) then 0 else 9) else
   if negb (alternates true (map snd actual)) then 1 else
-  if static && negb (conn_lost_coincides ins) then
-    if (matching_regs ins lid s =? 0) || negb (anyone_watching ins s) then (match actual with [] => 0 | _ => 2 end) else
-    match expected_history (found_touches ins a s) t_end with
-    | None => 0
-    | Some e => if hist_eqb actual e then 0 else 2
-    end
-  else 0.
+  if conn_lost_coincides ins then 0 else
+  let c :=
+    if static then
+      if (matching_regs ins lid s =? 0) || negb (anyone_watching ins s) then (match actual with [] => 0 | _ => 2 end) else
+      match expected_history (found_touches ins a s) t_end with
+      | None => 0
+      | Some e => if hist_eqb actual e then 0 else 2
+      end
+    else 0 in
+  if negb (c =? 0) then c else check_C05_last actual ins t_end d a s.
 
 (* reboot order: at the instant of a datagram that reveals a reboot of a, every "stopped" for a precedes
-   every "offered" for a (checked when it is the only datagram from a at that instant) *)
+   every "offered" for a (checked when it is the only datagram from a at that instant and no listener is registered
+   or unregistered in that instant) *)
 Definition reboot_order_ok (tr : trace) (ins : list (N * input)) : bool :=
   forallb (fun p =>
     match snd p with
     | IReboot a =>
         let t := fst p in
         if 1 <? count (fun q => (fst q =? t) && match snd q with IReboot a' => a' =? a | _ => false end) ins then true else
+        (* a watch call in the same instant replays "offered" for what is stored, before or after the datagram *)
+        if existsb (fun q => (fst q =? t) && match snd q with IApi c => is_reg_api c || is_unreg_api c | _ => false end) ins then true else
         let evs := flat_map (fun q => if fst q =? t then
                        match snd q with
                        | EOffered _ _ a' => if a' =? a then [true] else []
